@@ -28,7 +28,9 @@ class DeflateZipModel(JWEZipModel):
             value = decompressor.decompress(s, MAX_SIZE)
         except zlib.error as error:
             raise DecodeError(f"Invalid DEFLATE data: {error}")
-        if decompressor.unconsumed_tail:
+        # the limit is exceeded when input is left over, or when all input was
+        # consumed but the decompressor still holds output it could not deliver
+        if decompressor.unconsumed_tail or decompressor.decompress(b"", 1):
             raise ExceededSizeError(f"Decompressed string exceeds {MAX_SIZE} bytes")
         return value
 
